@@ -71,7 +71,11 @@ NOTAUTH == 9
 TsigErrName(e) == CASE e = 16 -> "BADSIG" [] e = 17 -> "BADKEY" [] e = 18 -> "BADTIME"
                     [] e = 22 -> "BADTRUNC" [] e = 1 -> "FORMERR" [] OTHER -> "OTHER"
 
-EncU48(t) == <<0, 0>> \o EncU32(t)          \* times in the model are < 2^31
+\* times in the model are < 2^31.  SymTime is a pseudo-octet for "the six
+\* octets of the Time Signed of the message being signed": the wrappers read
+\* the real clock, the harness takes the value from the wire
+SymTime == 6000
+EncU48(t) == IF t = SymTime THEN <<SymTime>> ELSE <<0, 0>> \o EncU32(t)
 
 --------------------------------------------------------------------------
 (* Messages *)
